@@ -10,6 +10,7 @@
 (* Parts are records [k, uk, id, len, i, of]:                                                       *)
 (*   http (response header)   msg (RTMP message = chunk group)   tag (FLV tags)   flvh (FLV header) *)
 (*   ts (188-byte packet group)   rtp ('$'-framed interleaved RTP/RTCP packet)   empty (no bytes)   *)
+(*   hs (RTMP handshake S0 S1 S2)   rtspr (RTSP response)                                           *)
 (*   wsf (WebSocket frame header + payload in one part)                                             *)
 (*   wsh (WebSocket frame header alone, len = announced payload length; its payload is the next     *)
 (*        part)   piece (i-th of `of` parts that only together are the unit uk/id/len).              *)
@@ -38,7 +39,8 @@ CONSTANTS Cons,       \* consumers with the small queue (capacity N) that may st
           Prime,      \* schedule generation: a stalled consumer's writer is kept busy with a null unit
           MaxPub, MaxRead, MaxStall, MaxSweep,  \* bounds (MaxSweep = 0: unbounded, not counted)
           MaxLeave,   \* how often the publisher may leave (and come back)
-          MaxPubB     \* publishes on the other stream
+          MaxPubB,    \* publishes on the other stream
+          MaxCmd      \* requests the consumers send (each is answered by one unit on the consumer's own connection)
 
 All == Cons \cup Healthy \cup Other
 
@@ -54,15 +56,15 @@ VARIABLES con,     \* per consumer [open, closed, q, fl, wire, base, wr]
 vars == <<con, cap, pf, npub, pend, cnt, act>>
 
 Min(a, b) == IF a < b THEN a ELSE b
-CntInit == [read |-> 0, stall |-> 0, sweep |-> 0, leave |-> 0, pubB |-> 0, live |-> TRUE]
+CntInit == [read |-> 0, stall |-> 0, sweep |-> 0, leave |-> 0, pubB |-> 0, cmd |-> 0, live |-> TRUE]
 ConsInit == [open |-> TRUE, closed |-> FALSE, q |-> <<>>, fl |-> <<>>, wire |-> <<>>, base |-> FALSE, wr |-> FALSE]
 RECURSIVE Flat(_)
 Flat(ss) == IF ss = <<>> THEN <<>> ELSE ss[1] \o Flat(Tail(ss))
 
 ---------------------------------------------------------------------------
 (* Framing grammar on sequences of parts.                                                          *)
-PayloadKinds == {"tag", "flvh", "ts", "rtp", "empty"}
-SelfKinds(w) == IF w THEN {"http", "wsf"} ELSE {"http", "msg", "tag", "flvh", "ts", "rtp", "empty"}
+PayloadKinds == {"tag", "flvh", "ts", "rtp", "rtspr", "empty"}
+SelfKinds(w) == IF w THEN {"http", "wsf"} ELSE {"http", "hs", "msg", "tag", "flvh", "ts", "rtp", "rtspr", "empty"}
 \* A "piece" is the i-th of `of` consecutive parts that only together are the unit (uk, id, len).
 \* tail: the sequence may end inside a unit (a connection that was cut while the unit was under way).
 RECURSIVE WholeT(_, _, _)
@@ -140,6 +142,13 @@ Part(k, id, len) == [k |-> k, uk |-> k, id |-> id, len |-> len, i |-> 0, of |-> 
 NullElem == << Part(IF pf.ws THEN "wsf" ELSE "empty", 0, 0) >>
 NeedsPrime(cs) == ~cs.closed /\ ~cs.open /\ cs.fl = <<>>
 PrimeC(cs, elem) == Enq(cs, 1, <<elem>>, <<>>, FALSE)
+\* An answer of the session to a request of its own consumer (ping response, _result, RTSP response): a unit of the
+\* consumer's stream like any other, enqueued by the session's read loop; its id carries the value it echoes
+\* (ids from ReplyBase on), so a unit that arrives altered is not the unit that was enqueued.  When the answer
+\* cannot be queued the write fails and the read loop hangs up.
+ReplyBase == 100000
+ReplyC(cs, n, R, acc) == LET c1 == Enq(cs, n, R, acc, FALSE)
+                         IN IF ~cs.closed /\ Accepted(cs, n, R, acc) # R THEN CutC(c1) ELSE c1
 
 ---------------------------------------------------------------------------
 (* The units of publish number n in the model-checking configurations.                              *)
@@ -207,9 +216,16 @@ PubArrive == /\ ~cnt.live /\ pend = <<>>
              /\ cnt' = [cnt EXCEPT !.live = TRUE]
              /\ act' = [name |-> "PubArrive"] /\ UNCHANGED <<con, cap, pf, npub, pend>>
 
+\* the read loop of consumer c answers a request: one enqueue by another goroutine than the fan-out loop, at any moment
+ReplyElem(k) == << Part(IF pf.ws THEN "wsf" ELSE "msg", ReplyBase + k, 1) >>
+FineCmd(c) == /\ ~con[c].closed /\ cnt.cmd < MaxCmd
+              /\ con' = [con EXCEPT ![c] = IF Len(@.q) >= cap[c] THEN CutC(@) ELSE [@ EXCEPT !.q = Append(@, ReplyElem(cnt.cmd + 1))]]
+              /\ cnt' = [cnt EXCEPT !.cmd = @ + 1]
+              /\ act' = [name |-> "Cmd", c |-> c] /\ UNCHANGED <<cap, pf, npub, pend>>
+
 FineNext == \/ FinePublish \/ FanoutWrite \/ Sweep \/ PubLeave \/ PubArrive
             \/ \E c \in All : WriterTake(c) \/ SocketWrite(c)
-            \/ \E c \in Cons : FineRead(c) \/ FineStall(c) \/ FineResume(c) \/ DeadlineFire(c)
+            \/ \E c \in Cons : FineRead(c) \/ FineStall(c) \/ FineResume(c) \/ DeadlineFire(c) \/ FineCmd(c)
 FineSpec == Init /\ [][FineNext]_vars
 \* fairness: the fan-out loop runs on (it never has to wait, NoBlocking), the timer ticks, deadlines pass;
 \* nothing is assumed about the consumers or the scheduling of the writer goroutines
@@ -247,8 +263,12 @@ GStall(c) == /\ c \in Cons /\ ~con[c].closed /\ con[c].open /\ cnt.stall < MaxSt
 GResume(c) == /\ ~con[c].closed /\ ~con[c].open
               /\ con' = [con EXCEPT ![c] = ResumeC(@)]
               /\ act' = [name |-> "Resume", c |-> c] /\ UNCHANGED <<cap, pf, npub, pend, cnt>>
+GCmd(c) == /\ ~con[c].closed /\ cnt.cmd < MaxCmd
+           /\ con' = [con EXCEPT ![c] = ReplyC(@, cap[c], <<ReplyElem(cnt.cmd + 1)>>, ReplyElem(cnt.cmd + 1))]
+           /\ cnt' = [cnt EXCEPT !.cmd = @ + 1]
+           /\ act' = [name |-> "Cmd", c |-> c] /\ UNCHANGED <<cap, pf, npub, pend>>
 GNext == \/ GPublish \/ GPublishB \/ Sweep \/ PubLeave \/ PubArrive
-         \/ \E c \in Cons : GRead(c) \/ GStall(c) \/ GResume(c) \/ DeadlineFire(c)
+         \/ \E c \in Cons : GRead(c) \/ GStall(c) \/ GResume(c) \/ DeadlineFire(c) \/ GCmd(c)
 GSpec == Init /\ [][GNext]_vars
 \* in the call-level model every state is quiescent
 Quiescent == \A c \in All : /\ (con[c].open => con[c].fl = <<>> /\ con[c].q = <<>>)
